@@ -1217,3 +1217,23 @@ def _m94():
         if True:
             for i in walk(d, variables):
                 yield i""")
+
+
+@mutant('make_target_var_line_reescaped')
+def _m95():
+    # Makefile._write_variable: the '#' escaping runs over the whole `target: NAME := value` line
+    from bfg9000.backends.make import syntax as ms
+    _patch_source(ms.Makefile, '_write_variable', """    if target:
+        out.write(target, Syntax.target)
+        out.write_literal(': ')
+    out.write_literal(name.name + ' := ')
+""", """    _real_out = out
+    out = Writer(StringIO(), _real_out.path_vars)
+    if target:
+        out.write(target, Syntax.target)
+        out.write_literal(': ')
+    _real_out.write_literal(re.sub(r'(\\\\*)#', lambda m: m.group(1) * 2 + '\\\\#',
+                                   out.stream.getvalue()))
+    out = _real_out
+    out.write_literal(name.name + ' := ')
+""")
